@@ -59,13 +59,14 @@ def enumerate_states(tier, seed):
     states = []
     for ta, tb in itertools.product(sc.TYPES, sc.TYPES):
         poly = ta in POLY and tb in POLY
-        bound = 2 if (poly or tier == "thorough") else 1
+        bound = (3 if poly else 2) if tier == "thorough" else (2 if poly else 1)
         for d in gs.enumerate_custom(ta, tb, ALPH, bound):
             ndev = sum(1 for k in ALPH if d[k] != ALPH[k][0])
-            d["perms"] = "all" if (ndev <= 1 and poly) or tier == "thorough" and poly else "two"
+            d["perms"] = "all" if (ndev <= 1 and poly) or (tier == "thorough" and poly and ndev <= 2) else "two"
             states.append(d)
-    meta = {"bound_completed": "polytope pairs (box/hull/mesh, 9 ordered pairs): deviation bound 2 over 9 coordinates; other pairs: "
-                               "deviation bound %d; simplex permutations: all 24 for <=1 deviation (polytopes), 2 otherwise" % (2 if tier == "thorough" else 1),
+    meta = {"bound_completed": "polytope pairs (box/hull/mesh, 9 ordered pairs): deviation bound %d over 9 coordinates; other pairs: "
+                               "deviation bound %d; simplex permutations: all 24 for <=%d deviations (polytopes), 2 otherwise"
+                               % ((3, 2, 2) if tier == "thorough" else (2, 1, 1)),
             "exhaustive": True}
     return states, meta
 
